@@ -38,6 +38,8 @@ FS_HEALTH = ["NONE", "GOOD", "COMPROMISED", "CORRUPT", "RESTORING", "REPAIRING"]
 SVC_REQS = ["scan", "fix", "compromise", "stop", "start", "pause", "resume", "restart", "disable", "enable"]
 APP_REQS = ["scan", "fix", "compromise", "close"]
 ITEM_REQS = ["scan", "checkhash", "repair", "restore", "corrupt"]
+STRUCT_OPS = ("appinstallreq", "appuninstallreq", "swinstallapi", "swuninstallapi", "fscreatefolder", "fscreatefile", "fscopyfile",
+              "dbrestore")
 
 
 def o(x) -> str:
@@ -73,6 +75,15 @@ class Impl:
             cfg["operating_state"] = nd["initial"]
         self.node = Computer.from_config(cfg)
         self.sim.network.add_node(self.node)
+        if case.get("db"):
+            # a backup server next to the node, so that DatabaseService.restore_backup can run for real
+            from primaite.simulator.system.services.ftp.ftp_server import FTPServer
+            bk = Computer.from_config(dict(type="computer", hostname="bk", ip_address="192.168.1.3", subnet_mask="255.255.255.0",
+                                           start_up_duration=0))
+            self.sim.network.add_node(bk)
+            bk.power_on()
+            self.sim.network.connect(self.node.network_interface[1], bk.network_interface[1])
+            bk.software_manager.install(FTPServer)
         for s in case["sw"]:
             mod, cls, _ = SW_CLASSES[s["cls"]]
             klass = getattr(importlib.import_module(mod), cls)
@@ -87,6 +98,16 @@ class Impl:
         for name, d in case.get("sysfix", {}).items():
             if name in self.node.software_manager.software:
                 self.node.software_manager.software[name].config.fixing_duration = d
+        if case.get("db"):
+            from ipaddress import IPv4Address
+            svc = self.node.software_manager.software["database-service"]
+            svc.configure_backup(IPv4Address("192.168.1.3"))
+            dbf = svc.db_file
+            if dbf is not None and case["db"].get("backup_health"):
+                dbf.health_status = FileSystemItemHealthStatus[case["db"]["backup_health"]]
+            self.db_backup_ok = bool(svc.backup_database())
+            if dbf is not None:
+                dbf.health_status = FileSystemItemHealthStatus[case["db"].get("health", "GOOD")]
         fs = self.node.file_system
         # drop the folders that installing software created unless the case lists them (keeps the case self-describing):
         # they are kept; the case generator names its own folders differently. Record every folder / file object by name.
@@ -97,10 +118,31 @@ class Impl:
             for fi in fo["files"]:
                 f = fs.create_file(folder_name=fo["name"], file_name=fi["name"])
                 f.health_status = FileSystemItemHealthStatus[fi["health"]]
-        self.sws = list(self.node.services.values()) + list(self.node.applications.values())
-        self.folders = list(fs.folders.values())
-        self.files = {fo.name: list(fo.files.values()) for fo in self.folders}
+        self._index()
         self.t = 0
+
+    def _index(self):
+        """model order of the items: creation order; objects are tracked by identity (names may repeat once items are created
+        and deleted dynamically)"""
+        fs = self.node.file_system
+        self.sws = list(self.node.services.values()) + list(self.node.applications.values())
+        self.folders = list(fs.folders.values()) + list(fs.deleted_folders.values())
+        self.files = {fo.uuid: list(fo.files.values()) + list(fo.deleted_files.values()) for fo in self.folders}
+        self.resolved: List[List[List[str]]] = []
+
+    def _refresh(self):
+        """after an operation: drop uninstalled software, append newly created software / folders / files"""
+        n, fs = self.node, self.node.file_system
+        live = {**n.services, **n.applications}
+        self.sws = [s for s in self.sws if s.uuid in live]
+        known = {s.uuid for s in self.sws}
+        self.sws += [s for u, s in live.items() if u not in known]
+        known = {f.uuid for f in self.folders}
+        self.folders += [f for u, f in {**fs.folders, **fs.deleted_folders}.items() if u not in known]
+        for fo in self.folders:
+            lst = self.files.setdefault(fo.uuid, [])
+            kn = {f.uuid for f in lst}
+            lst += [f for u, f in {**fo.files, **fo.deleted_files}.items() if u not in kn]
 
     def _init_scenario(self, case: dict):
         """A node of a shipped scenario, built by PrimaiteGame.from_config; the agents never act (only requests and ticks of
@@ -112,10 +154,7 @@ class Impl:
         for name, d in case.get("sysfix", {}).items():
             if name in self.node.software_manager.software:
                 self.node.software_manager.software[name].config.fixing_duration = d
-        fs = self.node.file_system
-        self.sws = list(self.node.services.values()) + list(self.node.applications.values())
-        self.folders = list(fs.folders.values())
-        self.files = {fo.name: list(fo.files.values()) for fo in self.folders}
+        self._index()
 
     # -- canonical state
     def sw_fields(self, sw) -> Tuple:
@@ -134,10 +173,12 @@ class Impl:
         for sw in self.sws:
             name, is_app, op, a, v, fd, fc, ad, ac = self.sw_fields(sw)
             lines.append(f"addsw {name} {'app' if is_app else 'svc'} {op} {a} {v} {fd} {o(fc)} {ad} {o(ac)}")
+        fs = n.file_system
+        lines.append(f"fsdefaults {o(fs._default_folder_scan_duration)} {o(fs._default_folder_restore_duration)}")
         for fo in self.folders:
             lines.append(f"addfolder {fo.name} {b(fo.deleted)} {fo.health_status.name} {fo.visible_health_status.name} "
                          f"{fo.scan_duration} {fo.scan_countdown} {fo.restore_duration} {fo.restore_countdown}")
-            for f in self.files[fo.name]:
+            for f in self.files[fo.uuid]:
                 lines.append(f"addfile {fo.name} {f.name} {f.health_status.name} {f.visible_health_status.name} {b(f.deleted)}")
         return lines
 
@@ -152,7 +193,7 @@ class Impl:
             live = fo.uuid in fs.folders
             mark = "" if live == (not fo.deleted) else "!folder-membership"
             files = []
-            for f in self.files[fo.name]:
+            for f in self.files[fo.uuid]:
                 flive = f.uuid in fo.files
                 fmark = "" if flive == (not f.deleted) else "!file-membership"
                 files.append(f"{f.name}:{f.health_status.name}:{f.visible_health_status.name}:{b(f.deleted)}{fmark}")
@@ -169,9 +210,25 @@ class Impl:
         return next((s for s in self.sws if s.name == name), None)
 
     def _file(self, F, f):
-        return next((x for x in self.files.get(F, []) if x.name == f), None)
+        for fo in self.folders:
+            if fo.name == F:
+                for x in self.files.get(fo.uuid, []):
+                    if x.name == f:
+                        return x
+        return None
 
     def apply(self, op: List[str]) -> str:
+        """one operation; records the model line(s) that describe it in `self.resolved`"""
+        self._lines = [list(op)]
+        r = self._apply(op)
+        if op[0] in STRUCT_OPS:
+            # items that appear during other operations come from network traffic of a scenario's other nodes (an FTP backup
+            # arriving during a tick): outside this model, ignored as before
+            self._refresh()
+        self.resolved.append(self._lines)
+        return r
+
+    def _apply(self, op: List[str]) -> str:
         k = op[0]
         if k == "tick":
             self.sim.pre_timestep(self.t)
@@ -214,23 +271,68 @@ class Impl:
         if k == "fsrestfolder":
             return self.req("file_system", "restore", "folder", op[1])
         if k == "fileset":
-            f = self._file(op[1], op[2])
-            if f is not None:
-                f.health_status = self.FsH[op[3]]
+            # stand-in for the external writers; like the model's `fileSet` it writes every file object of that name
+            for fo in self.folders:
+                if fo.name == op[1]:
+                    for f in self.files.get(fo.uuid, []):
+                        if f.name == op[2]:
+                            f.health_status = self.FsH[op[3]]
+            return "ok"
+        # ---- operations that create / remove items
+        if k == "appinstallreq":
+            from primaite.simulator.system.applications.application import Application
+            name = op[1]
+            klass = Application._registry.get(name)
+            fd = klass.ConfigSchema().fixing_duration if klass is not None else 0
+            ad = klass.model_fields["install_duration"].default if klass is not None else 0
+            self._lines = [["appinstallreq", name, str(fd), str(ad), b(klass is not None)]]
+            return self.req("software_manager", "application", "install", name)
+        if k == "appuninstallreq":
+            return self.req("software_manager", "application", "uninstall", op[1])
+        if k == "swinstallapi":  # swinstallapi <cls key> <fixing_duration> <starting health>
+            import importlib
+            mod, cls, is_app = SW_CLASSES[op[1]]
+            klass = getattr(importlib.import_module(mod), cls)
+            conf = klass.ConfigSchema(fixing_duration=int(op[2]), starting_health_state=self.SwH[op[3]])
+            ad = klass.model_fields["install_duration" if is_app else "restart_duration"].default
+            self._lines = [["swinstallapi", op[1], "app" if is_app else "svc", op[2], str(ad), op[3]]]
+            self.node.software_manager.install(klass, software_config=conf)
+            return "ok"
+        if k == "swuninstallapi":
+            self.node.software_manager.uninstall(op[1])
+            return "ok"
+        if k == "fscreatefolder":
+            return self.req("file_system", "create", "folder", op[1])
+        if k == "fscreatefile":
+            return self.req("file_system", "create", "file", op[1], op[2], op[3] == "1")
+        if k == "fscopyfile":
+            self.node.file_system.copy_file(src_folder_name=op[1], src_file_name=op[2], dst_folder_name=op[3])
+            return "ok"
+        if k == "dbrestore":  # Python API DatabaseService.restore_backup() (needs the case's backup server)
+            svc = self.node.software_manager.software.get("database-service")
+            ok = bool(svc is not None and svc.restore_backup())
+            if ok:
+                dl = self.node.file_system.get_file("downloads", "database.db")
+                self._lines = [["fscreatefile", "downloads", "database.db", "0"],
+                               ["fileset", "downloads", "database.db", dl.health_status.name],
+                               ["dbreplace", "database", "database.db", "downloads"],
+                               ["swset", "database-service", "GOOD"]]
+            else:
+                self._lines = [["noop"]]
             return "ok"
         raise ValueError(f"unknown op {op}")
 
     def snapshot(self) -> dict:
-        """health pairs for the implementation-side oracle"""
+        """health pairs for the implementation-side oracle, keyed by object identity"""
         return {
-            "sw": {s.name: (s.health_state_actual.name, s.health_state_visible.name) for s in self.sws},
-            "file": {(fo.name, f.name): (f.health_status.name, f.visible_health_status.name)
-                     for fo in self.folders for f in self.files[fo.name]},
-            "folder": {fo.name: (fo.health_status.name, fo.visible_health_status.name) for fo in self.folders},
+            "sw": {s.uuid: (s.name, s.health_state_actual.name, s.health_state_visible.name) for s in self.sws},
+            "file": {f.uuid: ((fo.name, f.name), f.health_status.name, f.visible_health_status.name)
+                     for fo in self.folders for f in self.files[fo.uuid]},
+            "folder": {fo.uuid: (fo.name, fo.health_status.name, fo.visible_health_status.name) for fo in self.folders},
         }
 
 
-def run_impl(case: dict) -> Tuple[List[str], List[str], List[str]]:
+def run_impl(case: dict):
     """Returns (setup lines for the driver, op lines, implementation answers `resp | dump` per op, oracle complaints)."""
     with contextlib.redirect_stdout(io.StringIO()):
         impl = Impl(case)
@@ -247,7 +349,7 @@ def run_impl(case: dict) -> Tuple[List[str], List[str], List[str]]:
         cur = impl.snapshot()
         complaints += oracle_step(i, op, prev, cur)
         prev = cur
-    return setup, answers, complaints
+    return setup, answers, complaints, impl.resolved
 
 
 def oracle_step(i: int, op: List[str], prev: dict, cur: dict) -> List[dict]:
@@ -257,27 +359,53 @@ def oracle_step(i: int, op: List[str], prev: dict, cur: dict) -> List[dict]:
     rules out every other operation.)"""
     out = []
     k = op[0]
-    for name, (a, v) in cur["sw"].items():
-        pa, pv = prev["sw"][name]
+    for uid, (name, a, v) in cur["sw"].items():
+        if uid not in prev["sw"]:
+            # a software object created in this step: nothing has scanned it yet
+            if v != "UNUSED":
+                out.append({"i": i, "op": op, "item": "sw:" + name, "visible": ["<new>", v], "actual": ["<new>", a]})
+            continue
+        _, pa, pv = prev["sw"][uid]
         if v != pv:
             legit = (k == "tick") or (k == "sw" and op[2] == name and op[3] == "scan")
             if not legit or v not in (a, pa):
                 out.append({"i": i, "op": op, "item": "sw:" + name, "visible": [pv, v], "actual": [pa, a]})
-    for key, (a, v) in cur["file"].items():
-        pa, pv = prev["file"][key]
+    for uid, (key, a, v) in cur["file"].items():
+        if uid not in prev["file"]:
+            # a file created in this step is unscanned (NONE) - or a copy, which takes over the visible status of its source / of
+            # the file it replaces (database restore): some file of that name must have shown that value before the step
+            if v != "NONE" and k in ("fscopyfile", "dbrestore"):
+                if not any(pk[1] == key[1] and pv2 == v for (pk, _, pv2) in prev["file"].values()):
+                    out.append({"i": i, "op": op, "item": "file:" + "/".join(key), "visible": ["<new>", v], "actual": ["<new>", a]})
+            elif v != "NONE":
+                out.append({"i": i, "op": op, "item": "file:" + "/".join(key), "visible": ["<new>", v], "actual": ["<new>", a]})
+            continue
+        _, pa, pv = prev["file"][uid]
         if v != pv:
             legit = (k == "tick") or (k == "file" and (op[1], op[2]) == key and op[3] == "scan")
             if not legit or v not in (a, pa):
                 out.append({"i": i, "op": op, "item": "file:" + "/".join(key), "visible": [pv, v], "actual": [pa, a]})
-    for name, (a, v) in cur["folder"].items():
-        pa, pv = prev["folder"][name]
+    for uid, (name, a, v) in cur["folder"].items():
+        if uid not in prev["folder"]:
+            if v != "NONE":
+                out.append({"i": i, "op": op, "item": "folder:" + name, "visible": ["<new>", v], "actual": ["<new>", a]})
+            continue
+        _, pa, pv = prev["folder"][uid]
         if v != pv and k != "tick":
             out.append({"i": i, "op": op, "item": "folder:" + name, "visible": [pv, v], "actual": [pa, a]})
     return out
 
 
-def model_lines(setup: List[str], case: dict) -> List[str]:
-    return setup + [" ".join(op) for op in case["ops"]]
+def model_lines(setup: List[str], case: dict, resolved=None) -> List[str]:
+    """driver input; `resolved` (from the implementation run) gives, per operation, the model line(s) that describe it - one
+    line except for `dbrestore`; durations of freshly installed classes are filled in there"""
+    if resolved is None:
+        return setup + [" ".join(op) for op in case["ops"]]
+    return setup + [" ".join(l) for group in resolved for l in group]
+
+
+def group_sizes(case: dict, resolved) -> List[int]:
+    return [len(g) for g in resolved] if resolved is not None else [1] * len(case["ops"])
 
 
 # ------------------------------------------------------------------------------------------ generation
@@ -293,7 +421,7 @@ def gen_case(rng: Rng, max_ops: int = 40) -> dict:
     sw = []
     for k in keys:
         sw.append({"cls": k, "fix": rng.choice(DURS + [-1]),
-                   "health": rng.choice(["GOOD", "GOOD", "UNUSED", "COMPROMISED", "OVERWHELMED"]),
+                   "health": rng.choice(["GOOD", "GOOD", "UNUSED", "COMPROMISED", "OVERWHELMED", "FIXING"]),
                    "aux": rng.choice([None, 0, 1, 2])})
     sysfix = {n: rng.choice(DURS) for n in SYS_SVCS + SYS_APPS if rng.chance(1, 3)}
     folders = []
@@ -608,3 +736,149 @@ def gen_scenario_case(rng: Rng, max_ops: int = 40) -> Optional[dict]:
     sysfix = {n: rng.choice(DURS) for n in SYS_SVCS + SYS_APPS + h["svcs"] + h["apps"] if rng.chance(1, 3)}
     ops = gen_ops_for(rng, h["svcs"], h["apps"], h["folders"], h["files"], h["shut"], rng.range(6, max_ops))
     return {"scenario": fname, "host": host, "sysfix": sysfix, "ops": ops}
+
+
+# ------------------------------------------------------------------------------------------ dynamic item sets
+INSTALLABLE_APPS = ["database-client", "data-manipulation-bot", "dos-bot", "ransomware-script", "web-browser", "c2-beacon",
+                    "c2-server", "nmap"]
+# classes whose construction / install() has no side effect on the file system (DatabaseService creates database/database.db,
+# WebServer creates primaite/index.html)
+API_CLASSES = ["dns-server", "ntp-server", "ftp-server", "database-client", "data-manipulation-bot", "dos-bot",
+               "ransomware-script"]
+
+
+def gen_dyn_case(rng: Rng, max_ops: int = 40) -> dict:
+    """A case of the random family whose operation sequence also installs / uninstalls software and creates folders and
+    files (also with the names of deleted ones, and in deleted folders), copies files, and keeps using the base operations
+    on whatever exists at that point."""
+    case = gen_case(rng, max_ops=4)
+    svcs = [s["cls"] for s in case["sw"] if not SW_CLASSES[s["cls"]][2]]
+    apps = [s["cls"] for s in case["sw"] if SW_CLASSES[s["cls"]][2]]
+    folders = [f["name"] for f in case["folders"]]
+    files = {f["name"]: [x["name"] for x in f["files"]] for f in case["folders"]}
+    ops: List[List[str]] = []
+    n = rng.range(6, max_ops)
+    while len(ops) < n:
+        r = rng.below(100)
+        if r < 45:
+            ops += gen_ops_for(rng, svcs, apps, folders, files, case["node"]["shut"], rng.range(1, 4))
+        elif r < 55:
+            name = rng.choice(INSTALLABLE_APPS + ["nosuch-app", "dns-server"])
+            ops.append(["appinstallreq", name])
+            if name in SW_CLASSES or name in ("web-browser",):
+                if name not in apps and name in SW_CLASSES:
+                    apps.append(name)
+        elif r < 62:
+            ops.append(["appuninstallreq", rng.choice((apps or ["nosuch"]) + ["web-browser", "nosuch", "dns-client"])])
+        elif r < 68:
+            have = set(svcs + apps)
+            cand = [c for c in API_CLASSES if c not in have]
+            if cand:
+                c = rng.choice(cand)
+                ops.append(["swinstallapi", c, str(rng.choice(DURS)), rng.choice(["GOOD", "GOOD", "UNUSED", "COMPROMISED", "FIXING"])])
+                (apps if SW_CLASSES[c][2] else svcs).append(c)
+        elif r < 72:
+            pool = svcs + apps
+            if pool:
+                c = rng.choice(pool)
+                ops.append(["swuninstallapi", c])
+                if c in svcs:
+                    svcs.remove(c)
+                else:
+                    apps.remove(c)
+        elif r < 79:
+            F = rng.choice(folders + ["new0", "new1", "root"])
+            ops.append(["fscreatefolder", F])
+            if F not in folders:
+                folders.append(F)
+                files.setdefault(F, [])
+        elif r < 92:
+            F = rng.choice(folders + ["new0", "new2"])
+            f = rng.choice(files.get(F, []) + ["n0.txt", "n1.txt"])
+            ops.append(["fscreatefile", F, f, "1" if rng.chance(1, 5) else "0"])
+            if F not in folders:
+                folders.append(F)
+            if f not in files.setdefault(F, []):
+                files[F].append(f)
+        else:
+            F = rng.choice(folders)
+            fs = files.get(F, [])
+            if fs:
+                D = rng.choice(folders + ["new1"])
+                f = rng.choice(fs)
+                if D != F:
+                    ops.append(["fscopyfile", F, f, D])
+                    if D not in folders:
+                        folders.append(D)
+                    if f not in files.setdefault(D, []):
+                        files[D].append(f)
+    case["ops"] = ops[:max_ops + 6]
+    case["family"] = "dyn"
+    return case
+
+
+def gen_db_case(rng: Rng, max_ops: int = 30) -> dict:
+    """database server with a reachable backup server: `dbrestore` = the real DatabaseService.restore_backup() (download,
+    delete the live file, copy the download in, carry the visible status over), interleaved with file / folder operations on
+    the database folder, scans and ticks. `fix` on the database service is not generated here: the restore it triggers runs
+    in the middle of a tick (covered by the implementation-only database oracle)."""
+    d = rng.choice(DURS)
+    case = {"node": {"start": 0, "shut": rng.choice([0, 1]), "scan": rng.choice(DURS), "initial": "ON"},
+            "sw": [{"cls": "database-service", "fix": d, "health": "GOOD", "aux": None}], "sysfix": {},
+            "folders": [{"name": "d0", "scan": rng.choice(DURS), "restore": rng.choice(DURS),
+                         "files": [{"name": "a.txt", "health": "GOOD"}]}],
+            "db": {"backup_health": rng.choice(["GOOD", "GOOD", "CORRUPT"]), "health": rng.choice(["GOOD", "CORRUPT", "COMPROMISED"])},
+            "ops": [], "family": "db"}
+    ops: List[List[str]] = []
+    menu = [["tick"], ["tick"], ["dbrestore"], ["dbrestore"], ["file", "database", "database.db", "scan"],
+            ["file", "database", "database.db", "corrupt"], ["folder", "database", "scan"], ["osscan"],
+            ["fsdelfile", "database", "database.db"], ["folder", "database", "corrupt"], ["file", "database", "database.db", "repair"],
+            ["fileset", "database", "database.db", "CORRUPT"], ["sw", "svc", "database-service", "compromise"],
+            ["sw", "svc", "database-service", "scan"], ["fsrestfile", "database", "database.db"], ["folder", "database", "restore"],
+            ["fsdelfile", "downloads", "database.db"], ["fsdelfolder", "downloads"], ["shutdown"], ["startup"]]
+    for _ in range(rng.range(5, max_ops)):
+        ops.append(list(rng.choice(menu)))
+    case["ops"] = ops
+    return case
+
+
+def interrupted_fix_cases(durs=(2, 3, 4)) -> List[dict]:
+    """Timelines around one fix: fix, k ticks, an interruption (compromise / external OVERWHELMED / power cycle / uninstall
+    and re-install / nothing), a second fix or none, then enough ticks. Enumerated, not sampled."""
+    cases = []
+    inter = [[], [["sw", "svc", "dns-server", "compromise"]], [["swset", "dns-server", "OVERWHELMED"], ["swset", "dns-server", "COMPROMISED"]],
+             [["shutdown"], ["tick"], ["startup"], ["tick"]], [["sw", "svc", "dns-server", "stop"], ["tick"], ["sw", "svc", "dns-server", "start"]],
+             [["swuninstallapi", "dns-server"], ["tick"], ["swinstallapi", "dns-server", "2", "COMPROMISED"]]]
+    for d in durs:
+        for k in range(0, d + 1):
+            for it in inter:
+                for again in (False, True):
+                    ops = [["sw", "svc", "dns-server", "compromise"], ["sw", "svc", "dns-server", "fix"]] + [["tick"]] * k + \
+                          [list(x) for x in it] + ([["sw", "svc", "dns-server", "fix"]] if again else []) + [["tick"]] * (d + 2)
+                    cases.append({"node": {"start": 0, "shut": 0, "scan": 1, "initial": "ON"},
+                                  "sw": [{"cls": "dns-server", "fix": d, "health": "GOOD", "aux": None},
+                                         {"cls": "database-client", "fix": d, "health": "GOOD", "aux": None}], "sysfix": {},
+                                  "folders": [{"name": "d0", "scan": d, "restore": d, "files": [{"name": "a.txt", "health": "GOOD"}]}],
+                                  "ops": ops, "family": "interrupted-fix"})
+    return cases
+
+
+def overlap_scan_cases(durs=(0, 1, 2, 3, 6)) -> List[dict]:
+    """A timed folder scan and a whole-node scan in flight together, for every pair of durations and every offset between the
+    two requests; a file whose actual and visible status differ; a file created and one deleted while the scans run."""
+    cases = []
+    for dn in durs:
+        for df in durs:
+            for first in ("node", "folder"):
+                for gap in (0, 1, 2):
+                    for extra in ([], [["fscreatefile", "d0", "late.txt", "0"]], [["fsdelfile", "d0", "a.txt"]],
+                                  [["fsdelfile", "d0", "a.txt"], ["fscreatefile", "d0", "a.txt", "0"]]):
+                        a, bq = (["osscan"], ["folder", "d0", "scan"]) if first == "node" else (["folder", "d0", "scan"], ["osscan"])
+                        ops = [["file", "d0", "a.txt", "corrupt"], a] + [["tick"]] * gap + [bq] + [list(x) for x in extra] + \
+                              [["tick"]] * (max(dn, df, 1) + 2)
+                        cases.append({"node": {"start": 0, "shut": 0, "scan": dn, "initial": "ON"},
+                                      "sw": [{"cls": "dns-server", "fix": 1, "health": "COMPROMISED", "aux": None}], "sysfix": {},
+                                      "folders": [{"name": "d0", "scan": df, "restore": 1,
+                                                   "files": [{"name": "a.txt", "health": "GOOD"}, {"name": "b.txt", "health": "CORRUPT"}]}],
+                                      "ops": ops, "family": "overlap-scan"})
+    return cases
